@@ -32,7 +32,13 @@ func (t *schedulerTask) Name() string {
 }
 
 // Next 获取任务下一次执行的时间
+//   - 时间轮在运行一个定时器时会先以该定时器的到期时间调用 Next，然后才执行任务函数。当某个桶在等待刷新时被重新设置了到期时间，
+//     时间轮的时钟会被提前，其中的定时器最多会提早一整圈被取出，因此这里先等待到期时间真正到来，确保任务不会提前执行
 func (t *schedulerTask) Next(prev time.Time) time.Time {
+	if early := time.Until(prev); early > 0 {
+		time.Sleep(early)
+	}
+
 	t.lock.Lock()
 	defer t.lock.Unlock()
 
